@@ -12,7 +12,10 @@ Import ListNotations.
 Close Scope Z_scope.
 
 Definition is_flex (ty : btype) : bool := match ty with Flex => true | _ => false end.
-Definition flex_post_b (i : inst) : bool := forallb (fun mc => is_flex (bc_type (mc_post mc))) (i_machs i).
+(* every machine post-buffer is unordered (FLEX) - or holds at most one job, so that the job in it is always at the
+   position its discipline releases *)
+Definition flex_post_b (i : inst) : bool :=
+  forallb (fun mc => is_flex (bc_type (mc_post mc)) || (bc_cap (mc_post mc) =? 1)%Z) (i_machs i).
 
 Definition no_dep (oc : occ) : Prop := match oc with ODep _ _ _ => False | _ => True end.
 Definition NODEP (x : state) : Prop := forall t st oc jb, tc x t = Some (st, oc, jb) -> no_dep oc.
@@ -77,9 +80,16 @@ Proof.
         destruct (nth_error (i_machs i) m) as [mc|] eqn:Emc.
         - simpl. destruct (index_of_In _ _ Emem) as [p [Hp Hlt]]. rewrite Hp.
           unfold flex_post_b in Hflex. pose proof (forallb_nth _ _ _ _ Hflex Emc) as Hf. simpl in Hf.
-          destruct (bc_type (mc_post mc)); try discriminate.
           unfold is_correct_position. destruct (Nat.eqb_spec (length (b_store (m_post ms))) 0) as [E0|_]; [lia|].
-          simpl. apply Nat.ltb_lt in Hlt. rewrite Hlt. reflexivity.
+          apply orb_true_iff in Hf. destruct Hf as [Hf|Hf].
+          + destruct (bc_type (mc_post mc)); try discriminate. simpl. apply Nat.ltb_lt in Hlt. rewrite Hlt. reflexivity.
+          + (* capacity one: the store has exactly one element, at position 0 *)
+            apply Z.eqb_eq in Hf.
+            assert (Hcfg : get_bcfg i (BPost m) = Some (mc_post mc)) by (simpl; rewrite Emc; reflexivity).
+            pose proof (ws_cap _ _ W _ _ _ Hpost Hcfg) as Hc. rewrite Hf in Hc. unfold lenZ in Hc.
+            assert (Hlen : length (b_store (m_post ms)) = 1) by lia. rewrite Hlen in *.
+            assert (Hp0 : p = 0) by lia. subst p.
+            destruct (bc_type (mc_post mc)); simpl; reflexivity.
         - exfalso. rewrite Hl' in Ec. simpl in Ec. rewrite Emc in Ec. discriminate. }
       rewrite Hr in Hm. simpl in Hm. inversion Hm; subst; exact I.
     - destruct (first_proc jb) as [k|]; simpl in Hm; [|discriminate].
